@@ -128,6 +128,7 @@ var c15Pre = []struct{ src, out string }{
 	{"{foreach $i in [1]} /* c */{$i}{/foreach}", "1"},
 	{"{let $y} /*c*/ l{/let}{$y}", "l"},
 	{"{call .u /}", "u"},
+	{"{msg desc=\"d\"}", "{/msg}"}, // (index 7: the run is the text of a message; src closes it)
 }
 
 // H_textlex: a template body of n characters over {a < > space LF CR / * :} (concrete per path)
@@ -160,6 +161,11 @@ func H_textlex(n, ctx int) {
 		// inside a block): they must not influence the text that follows the command
 		src, run, prev = "{namespace n}\n/** @param x */\n{template .t autoescape=\"false\"}\n"+c15Pre[ctx-3].src+body+"{$x}\n{/template}\n"+c15Callee, body, '}'
 		preOut = c15Pre[ctx-3].out
+		if ctx == 10 {
+			// the text of a message (tags in it become placeholders and are written back as they are)
+			src = "{namespace n}\n/** @param x */\n{template .t autoescape=\"false\"}\n{msg desc=\"d\"}" + body + "{/msg}{$x}\n{/template}\n"
+			preOut = ""
+		}
 	}
 	verifObserve("body", body)
 	stripped, closed, openLine := c15Strip3(run, prev)
@@ -167,6 +173,11 @@ func H_textlex(n, ctx int) {
 	f, err := parse.SoyFile("t.soy", src)
 	if !closed {
 		verifAssert(err != nil, "an unclosed block comment was accepted")
+		return
+	}
+	if ctx == 10 && openLine {
+		// a line comment left open by the run extends over the {/msg} on the same line
+		verifAssert(err != nil, "a message whose closing tag lies inside a line comment was accepted")
 		return
 	}
 	verifAssert(err == nil, "template text rejected by the parser")
